@@ -164,6 +164,9 @@ func Walk(root string) ([]Entry, error) {
 		}
 		list, err := os.ReadDir(dir)
 		if err != nil {
+			if os.IsPermission(err) && rel != "" {
+				return nil // a directory this user may not list shows no content
+			}
 			return err
 		}
 		for _, d := range list {
